@@ -1,4 +1,6 @@
 import TxdbusModel.Proofs.Bus.RouteMain
+import TxdbusModel.Proofs.Bus.RouteFull
+import TxdbusModel.Properties.C12
 import TxdbusModel.Gen.Route
 /-!
 # C14 - the built-in bus delivers each message to the right peer with the true sender
@@ -211,6 +213,178 @@ theorem broadcast_exact (cfg : Cfg ρ) (hr : cfg.Repaired) (h : List (Event ρ))
       simp only [List.mem_map, List.mem_filter]
       exact ⟨(j, p), ⟨hin, hholds⟩, rfl⟩, rfl⟩
 
+
+/-! ## 7. the full rule language: C14 composed with C12 (extension 2026-09-30)
+
+The router the bus routes through is the `router.MessageRouter` of C12, filled by `Bus.dbus_AddMatch`.  The
+bus model is instantiated with `FullRule` (= the kwargs `dbus_AddMatch` hands to `router.addMatch`, C12's
+`RuleArgs`) and the predicate `fullCfg b` = C12's code models `mkRule` and `Rule.match` on `ruleView m`
+(what `Rule.match` sees of the bus's message object, true sender).  `b` says whether the router evaluates
+`arg0namespace` (`false`: txdbus as found - finding `arg0namespace-constraint-ignored`; `true`: after
+fixes/C14-05; the driver takes it from `Gen.BusRoute.evaluatesArg0ns`, probed from router.py on every run).
+The matching relation of the statements is the SPECIFICATION: `busSpecMatches b` = C12's `Spec.specMatches`
+(and the DBus clause for `arg0namespace` when `b`).  `sender` is in neither (known finding
+`sender-constraint-ignored`: stored, never evaluated - unchanged). -/
+
+open Txdbus.Route (RuleArgs Tables renderRule parseRuleGen)
+
+/-- C12's equivalence theorem `match_eq_spec`, carried over to the bus as found: the rule stored for the
+kwargs `a` hands the bus's message object `m` to the holder iff `ruleView m` satisfies `a` in the sense of C12's
+specification `specMatches` - for every well-formed rule over all keys and every message. -/
+theorem bus_rule_matches_iff_c12_spec (a : FullRule) (m : Msg) (hwf : RuleArgs.WF a) :
+    (fullCfg false).holds a m = true ↔ Txdbus.Route.Spec.specMatches a (ruleView m) = true := by
+  obtain ⟨r, hr, hiff⟩ := Txdbus.Route.match_eq_spec a (ruleView m) hwf
+  show FullRule.holdsWith Tables.gen false a m = true ↔ _
+  unfold FullRule.holdsWith
+  rw [hr, ← hiff]
+  simp only [beq_iff_eq]
+  rw [fullMatch_call_iff]
+  simp
+
+/-- ... and for either router (`b`): the code model holds iff the specification (`specMatches`, plus the
+`arg0namespace` clause of the DBus specification when the router evaluates that key) does. -/
+theorem full_rule_matches_iff_spec (b : Bool) (a : FullRule) (m : Msg) (hwf : FullRule.WF b a) :
+    (fullCfg b).holds a m = true ↔ busSpecMatches b a (ruleView m) = true := by
+  show FullRule.holdsWith Tables.gen b a m = true ↔ _
+  rw [Txdbus.Route.gen_eq_cur]
+  exact holds_iff_spec_cur b a m hwf
+
+/-- The rules the router holds were registered by AddMatch events of the history, by their holders (together
+with `rules_held_by_connected_clients`: the table is `heldAfter h`, every holder is connected). -/
+theorem held_rules_were_registered (h : List (Event ρ)) (j : ConnId) (r : ρ) (hm : (j, r) ∈ heldAfter h) :
+    ∃ m, Event.msg j m (.addMatch r) ∈ h :=
+  heldAfter_mem h j r hm
+
+/-- `broadcast_exact` for the full rule language, against the SPECIFICATION.  After any history in which
+the registered rules are well-formed (any keys: type, sender, interface, member, path, path_namespace,
+destination, argN, argNpath, arg0namespace), a message without destination from a live connection `i` is
+delivered - one copy per held rule, to its holder, in registration order, re-marshalled under `i`'s true
+name - for exactly the held rules that the message object SATISFIES (`busSpecMatches`: C12's `specMatches`
+on `ruleView`, true sender); so connection `j` receives it iff it is connected and holds a rule the signal
+satisfies. -/
+theorem broadcast_exact_full (b : Bool) (h : List (Event FullRule)) (wf : ∀ e ∈ h, e.wf)
+    (rwf : ∀ e ∈ h, e.ruleWF b) (i : ConnId) (m : Msg) (op : BusOp FullRule)
+    (hd : truthy m.dest = false) (hl : Live (final (fullCfg b) State.init h) i) :
+    let r := step (fullCfg b) (final (fullCfg b) State.init h) (.msg i m op)
+    ∃ n, nameOf r.1 i = some n ∧
+    r.2.deliveries = ((heldAfter h).filter (fun e => busSpecMatches b e.2 (ruleView (withSender m (some n))))).map
+      (fun e => ⟨e.1, .fwd i (remarshal m n)⟩) ∧
+    (∀ j, (∃ dl ∈ r.2.deliveries, dl.to = j) ↔
+      (Live r.1 j ∧ ∃ a, (j, a) ∈ heldAfter h ∧ busSpecMatches b a (ruleView (withSender m (some n))) = true)) := by
+  intro r
+  obtain ⟨n, hn, hdl, hiff⟩ := broadcast_exact (fullCfg b) ⟨rfl, rfl⟩ h wf i m op hd hl
+  have hwfheld : ∀ e ∈ heldAfter h, FullRule.WF b e.2 := by
+    intro e he
+    obtain ⟨m', hm'⟩ := heldAfter_mem h e.1 e.2 he
+    exact rwf _ hm'
+  have heq : ∀ e ∈ heldAfter h, (fullCfg b).holds e.2 (withSender m (some n))
+      = busSpecMatches b e.2 (ruleView (withSender m (some n))) := by
+    intro e he
+    exact Bool.eq_iff_iff.mpr (full_rule_matches_iff_spec b e.2 _ (hwfheld e he))
+  refine ⟨n, hn, ?_, fun j => ?_⟩
+  · rw [show r.2.deliveries = _ from hdl]
+    congr 1
+    exact List.filter_congr heq
+  · rw [hiff j]
+    constructor
+    · rintro ⟨hlive, a, ha, hh⟩
+      exact ⟨hlive, a, ha, by rw [← heq (j, a) ha]; exact hh⟩
+    · rintro ⟨hlive, a, ha, hh⟩
+      exact ⟨hlive, a, ha, by rw [heq (j, a) ha]; exact hh⟩
+
+/-- The same for txdbus as found, with C12's specification verbatim: a broadcast reaches exactly the
+connections holding a rule that `Route.Spec.specMatches` it. -/
+theorem broadcast_exact_c12_spec (h : List (Event FullRule)) (wf : ∀ e ∈ h, e.wf)
+    (rwf : ∀ e ∈ h, e.ruleWF false) (i : ConnId) (m : Msg) (op : BusOp FullRule)
+    (hd : truthy m.dest = false) (hl : Live (final (fullCfg false) State.init h) i) :
+    let r := step (fullCfg false) (final (fullCfg false) State.init h) (.msg i m op)
+    ∃ n, nameOf r.1 i = some n ∧
+    (∀ j, (∃ dl ∈ r.2.deliveries, dl.to = j) ↔
+      (Live r.1 j ∧ ∃ a, (j, a) ∈ heldAfter h ∧
+        Txdbus.Route.Spec.specMatches a (ruleView (withSender m (some n))) = true)) := by
+  intro r
+  obtain ⟨n, hn, _, hiff⟩ := broadcast_exact_full false h wf rwf i m op hd hl
+  refine ⟨n, hn, fun j => ?_⟩
+  have := hiff j
+  simp only [busSpecMatches_false] at this
+  exact this
+
+/-! ### the AddMatch text -/
+
+/-- The text path, composed from C12's `rule_text_roundtrip` and `bus_rule_is_client_rule`: for EVERY set of
+constraints `a`, the text a txdbus client writes (`renderRule a`, C12's model of
+`DBusClientConnection.addMatch`) is read by the bus (`addMatchOp`: C12's model of `_parseMatchRule` and the
+kwargs loop of `dbus_AddMatch`) as a registration - never a ValueError, never outside the modelled domain -
+of `a.normalize` (`arg=[]` and `arg=None` being the same), and the rule registered that way selects exactly
+the messages the rule stored for `a` itself selects. -/
+theorem addmatch_text_roundtrip (a : RuleArgs) :
+    addMatchOp (renderRule a) = some (.addMatch a.normalize) ∧
+    ∀ b m, (fullCfg b).holds a.normalize m = (fullCfg b).holds a m := by
+  refine ⟨?_, fun b m => ?_⟩
+  · unfold addMatchOp
+    rw [Txdbus.Route.rule_text_roundtrip a]
+  · show FullRule.holdsWith Tables.gen b a.normalize m = FullRule.holdsWith Tables.gen b a m
+    unfold FullRule.holdsWith
+    rw [Txdbus.Route.bus_rule_is_client_rule a]
+
+/-- A rule registered through the text a txdbus client sends for well-formed constraints `a` matches exactly
+the messages that satisfy `a`. -/
+theorem client_text_rule_matches_spec (b : Bool) (a : RuleArgs) (hwf : FullRule.WF b a) (m : Msg) :
+    ∃ r, addMatchOp (renderRule a) = some (.addMatch r) ∧
+      ((fullCfg b).holds r m = true ↔ busSpecMatches b a (ruleView m) = true) := by
+  obtain ⟨h1, h2⟩ := addmatch_text_roundtrip a
+  exact ⟨a.normalize, h1, by rw [h2 b m]; exact full_rule_matches_iff_spec b a m hwf⟩
+
+/-- Histories whose AddMatch calls carry client-written texts of well-formed constraints satisfy the
+hypothesis of `broadcast_exact_full`. -/
+theorem client_text_events_are_wf (b : Bool) (e : Event FullRule) (h : e.fromClientText b) : e.ruleWF b := by
+  cases e with
+  | connect => trivial
+  | disconnect i effs => trivial
+  | msg i m op =>
+    cases op with
+    | always => trivial
+    | exec effs => trivial
+    | addMatch r =>
+      obtain ⟨a, hwf, _, hop⟩ := h
+      rw [(addmatch_text_roundtrip a).1] at hop
+      cases hop
+      exact hwf.normalize
+
+/-! ### order of broadcasts -/
+
+/-- For every sender `i` and receiver `j`: in the step of the k-th event, every destination-less forward from
+`i` that `j` receives is (the wire form of) the k-th event's own message, which `i` sent without destination -
+nothing is held back, nothing arrives in a later or earlier step, nothing is invented.  (Copies: one per
+matching rule held by `j`, see `broadcast_exact_full`.) -/
+theorem broadcast_order_preserved (cfg : Cfg ρ) (hr : cfg.Repaired) (h : List (Event ρ)) (i j : ConnId) :
+    Stepwise (fun e o => ∀ x ∈ o.deliveries.filterMap (bcastOf i j),
+        (bcastSent i e).map wireForm = some (eraseSender x))
+      h (exec cfg State.init h) :=
+  exec_stepwise hr Inv.init h _ (fun _ inv e => step_bcast hr inv e i j)
+
+/-- Sublist form (as `order_preserved` for addressed messages): the first copy per step of what `j` receives
+from `i`'s broadcasts is, up to the sender field, a subsequence of what `i` broadcast, in the order sent. -/
+theorem broadcast_first_copies_in_order (cfg : Cfg ρ) (hr : cfg.Repaired) (h : List (Event ρ)) (i j : ConnId) :
+    List.Sublist (((exec cfg State.init h).filterMap (firstBcast i j)).map eraseSender)
+      ((h.filterMap (bcastSent i)).map wireForm) :=
+  firstBcast_sublist i j h _ (broadcast_order_preserved cfg hr h i j)
+
+/-! ### the first version's simple rules are a fragment -/
+
+/-- Embedding: a `SimpleRule` (equality on type / interface / member / path / destination, `sender` stored) is
+the full rule with the same constraints and none of the other keys; on either router the full predicate
+computes what `SimpleRule.holds` computes.  So sections 1-6, instantiated with `repaired`, are statements about a
+fragment of `fullCfg b`. -/
+theorem simple_rules_embed (b : Bool) (r : SimpleRule) (hne : r.NonEmpty) (m : Msg) :
+    (fullCfg b).holds r.toFull m = r.holds m := by
+  apply Bool.eq_iff_iff.mpr
+  rw [full_rule_matches_iff_spec b r.toFull m (SimpleRule.toFull_wf b r hne), ← specMatches_toFull]
+  unfold busSpecMatches
+  have : r.toFull.arg0ns = none := rfl
+  rw [this]
+  simp [Txdbus.Route.Spec.optAll]
+
 /-! ## the hypotheses are satisfiable, the statements are not vacuous -/
 
 section examples
@@ -296,6 +470,95 @@ theorem original_rule_outlives_its_client :
     ∧ (step repaired (final repaired State.init (setup ++ [.disconnect 2 []]))
         (.msg 0 (sigFrom 6) (.exec []))).2.deliveries = [] := by decide
 
+/-! ## the full rule language: examples and witnesses -/
+
+section fullExamples
+open Txdbus.Route (Arg)
+
+private def fsig (path : String) (args : Option (List Arg)) : Msg :=
+  { mtype := .sig, serial := 9, noReply := false, noAutoStart := false, otherFlags := 0, path := some (nm path),
+    iface := some (nm "org.ex.I"), member := some (nm "Foo"), errorName := none, replySerial := none, dest := none,
+    sender := some (nm ":1.7"), extra := [], body := nm "ss:tok", args := args }
+
+private def ruleNsArg : FullRule := { pathNs := some (nm "/x"), args := some [(0, nm "hi")] }
+private def ruleNs0 : FullRule := { arg0ns := some (nm "org.ex") }
+private def ruleArgPath : FullRule := { mtype := some (nm "signal"), argPaths := some [(1, nm "/x/")] }
+
+private def addMatchCall (serial : Nat) (text : String) : Msg :=
+  { helloMsg serial with member := some addMatchMember, body := nm "s:rule", args := some [.str text.toList] }
+
+/-- The text the txdbus client writes for these constraints, and what the bus's parser makes of it. -/
+example : renderRule ruleNsArg = "path_namespace='/x',arg0='hi'".toList := by decide
+example : addMatchOp "path_namespace='/x',arg0='hi'".toList = some (.addMatch ruleNsArg) := by rfl
+example : addMatchOp "type='signal',arg1path='/x/'".toList = some (.addMatch ruleArgPath) := by rfl
+/-- A text without `=` is a ValueError inside `dbus_AddMatch`: an executed method that registers nothing. -/
+example : addMatchOp "nonsense".toList = some (.exec []) := by rfl
+
+private theorem ruleNsArg_wf (b : Bool) : FullRule.WF b ruleNsArg :=
+  ⟨⟨by decide, by decide, by decide, by decide, by decide, by decide⟩, fun _ => by decide⟩
+private theorem ruleNs0_wf (b : Bool) : FullRule.WF b ruleNs0 :=
+  ⟨⟨by decide, by decide, by decide, by decide, by decide, by decide⟩, fun _ => by decide⟩
+
+/-- three clients say Hello; client 2 registers `path_namespace='/x',arg0='hi'`, client 1 `arg0namespace='org.ex'` -/
+private def setupFull : List (Event FullRule) :=
+  [.connect, .connect, .connect,
+   .msg 0 (helloMsg 1) (.exec []), .msg 1 (helloMsg 2) (.exec []), .msg 2 (helloMsg 3) (.exec []),
+   .msg 2 (addMatchCall 4 "path_namespace='/x',arg0='hi'") (.addMatch ruleNsArg),
+   .msg 1 (addMatchCall 5 "arg0namespace='org.ex'") (.addMatch ruleNs0)]
+
+/-- The hypotheses of `broadcast_exact_full` hold for this history (either router). -/
+example : ∀ e ∈ setupFull, e.wf := by simp [setupFull, Event.wf, addMatchCall]
+example (b : Bool) : ∀ e ∈ setupFull, e.ruleWF b := by
+  intro e he
+  simp only [setupFull, List.mem_cons, List.mem_nil_iff, or_false] at he
+  rcases he with rfl | rfl | rfl | rfl | rfl | rfl | rfl | rfl
+  all_goals first | exact trivial | exact ruleNsArg_wf b | exact ruleNs0_wf b
+/-- ... and its AddMatch calls are what a txdbus client sends for those constraints. -/
+example (b : Bool) : Event.fromClientText b (.msg 2 (addMatchCall 4 "path_namespace='/x',arg0='hi'") (.addMatch ruleNsArg)) :=
+  ⟨ruleNsArg, ruleNsArg_wf b, by decide, by rfl⟩
+example : Live (final (fullCfg false) State.init setupFull) 0 := by unfold Live; decide
+example : heldAfter setupFull = [(2, ruleNsArg), (1, ruleNs0)] := by decide
+
+/-- A broadcast on /x/y with first argument 'hi': client 2's rule is satisfied (descendant of /x, arg0 = 'hi').
+txdbus as found also delivers to client 1, whose rule asks for the namespace org.ex (finding
+`arg0namespace-constraint-ignored`); the repaired router does not. -/
+example : ((step (fullCfg false) (final (fullCfg false) State.init setupFull)
+      (.msg 0 (fsig "/x/y" (some [.str (nm "hi")])) (.exec []))).2.deliveries.map (·.to)) = [2, 1] := by decide
+example : ((step (fullCfg true) (final (fullCfg true) State.init setupFull)
+      (.msg 0 (fsig "/x/y" (some [.str (nm "hi")])) (.exec []))).2.deliveries.map (·.to)) = [2] := by decide
+/-- The sibling path /xy is outside the namespace /x; a first argument inside org.ex reaches client 1. -/
+example : ((step (fullCfg true) (final (fullCfg true) State.init setupFull)
+      (.msg 0 (fsig "/xy" (some [.str (nm "hi")])) (.exec []))).2.deliveries.map (·.to)) = [] := by decide
+example : ((step (fullCfg true) (final (fullCfg true) State.init setupFull)
+      (.msg 0 (fsig "/xy" (some [.str (nm "org.ex.A"), .other])) (.exec []))).2.deliveries.map (·.to)) = [1] := by decide
+example : busSpecMatches true ruleNsArg (ruleView (fsig "/x/y" (some [.str (nm "hi")]))) = true := by decide
+example : busSpecMatches true ruleNsArg (ruleView (fsig "/xy" (some [.str (nm "hi")]))) = false := by decide
+
+/-- Finding `arg0namespace-constraint-ignored`, on the model of txdbus as found: the rule
+`arg0namespace='org.ex.A'` selects a signal whose first argument is 'org.ex.B', which the specification's clause
+rejects; the model of the repaired router (fixes/C14-05) rejects it too. -/
+theorem arg0namespace_is_ignored :
+    let r : FullRule := { arg0ns := some (nm "org.ex.A") }
+    let m := fsig "/x" (some [.str (nm "org.ex.B")])
+    (fullCfg false).holds r m = true ∧ busSpecMatches true r (ruleView m) = false ∧
+    (fullCfg true).holds r m = false := by decide
+
+/-- The known finding `sender-constraint-ignored` is unchanged on the full model, for either router: a rule for
+sender ':1.2' selects a signal from ':1.7'. -/
+theorem sender_constraint_is_ignored_full :
+    (fullCfg false).holds { sender := some (nm ":1.2") } (fsig "/x" none) = true ∧
+    (fullCfg true).holds { sender := some (nm ":1.2") } (fsig "/x" none) = true := by decide
+
+/-- The embedding on an instance: the simple rule of the first examples and its full form select the same. -/
+example : SimpleRule.NonEmpty ruleI := by unfold SimpleRule.NonEmpty; decide
+example : (fullCfg false).holds ruleI.toFull (sigFrom 6) = ruleI.holds (sigFrom 6) := by decide
+
+/-- Order of broadcasts on the example: the copy client 2 receives in the last step is the message of that step. -/
+example : (exec (fullCfg false) State.init (setupFull ++ [.msg 0 (fsig "/x/y" (some [.str (nm "hi")])) (.exec [])])).filterMap
+      (firstBcast 0 2) = [{ fsig "/x/y" (some [.str (nm "hi")]) with sender := some (nm ":1.1") }] := by decide
+
+end fullExamples
+
 end examples
 
 end Txdbus.BusRoute
@@ -317,3 +580,16 @@ end Txdbus.BusRoute
 #print axioms Txdbus.BusRoute.simple_rule_keys_are_the_routers
 #print axioms Txdbus.BusRoute.original_unicast_reaches_rule_holder
 #print axioms Txdbus.BusRoute.original_rule_outlives_its_client
+#print axioms Txdbus.BusRoute.bus_rule_matches_iff_c12_spec
+#print axioms Txdbus.BusRoute.full_rule_matches_iff_spec
+#print axioms Txdbus.BusRoute.held_rules_were_registered
+#print axioms Txdbus.BusRoute.broadcast_exact_full
+#print axioms Txdbus.BusRoute.broadcast_exact_c12_spec
+#print axioms Txdbus.BusRoute.addmatch_text_roundtrip
+#print axioms Txdbus.BusRoute.client_text_rule_matches_spec
+#print axioms Txdbus.BusRoute.client_text_events_are_wf
+#print axioms Txdbus.BusRoute.broadcast_order_preserved
+#print axioms Txdbus.BusRoute.broadcast_first_copies_in_order
+#print axioms Txdbus.BusRoute.simple_rules_embed
+#print axioms Txdbus.BusRoute.arg0namespace_is_ignored
+#print axioms Txdbus.BusRoute.sender_constraint_is_ignored_full
